@@ -127,7 +127,7 @@ func (e *Env) Exec(bin, progs, events string, timeout time.Duration) error {
 // ExecRace runs a -race build of vexec; returns its combined output and exit code (66 = race reported).
 func (e *Env) ExecRace(bin, progs, events string, timeout time.Duration) (string, int) {
 	cmd := exec.Command(bin, "-in", progs, "-out", events)
-	cmd.Env = append(os.Environ(), "GORACE=halt_on_error=1 exitcode=66")
+	cmd.Env = append(os.Environ(), "GORACE=halt_on_error=1 exitcode=66", "VERIF_NOPOOLLOG=1")
 	var out bytes.Buffer
 	cmd.Stderr = &out
 	cmd.Stdout = &out
